@@ -86,8 +86,10 @@ def scale_value(rng):
 
 def gen_case(rng, tier):
     gamma = rng.choice(GAMMAS) if rng.random() < .9 else "1"
-    m = gen_mdp.gen_mdp(rng, nmax=5 if tier == "quick" else 6, amax=3, gamma=gamma, proper=True,
-                        min_states=1 if rng.random() < .05 else 2)
+    if rng.random() < .06:     # one-state MDP (its only state is absorbing: every episode is empty)
+        m = gen_mdp.gen_mdp(rng, nmax=1, amax=3, gamma=gamma, proper=True, min_states=1)
+    else:
+        m = gen_mdp.gen_mdp(rng, nmax=5 if tier == "quick" else 6, amax=3, gamma=gamma, proper=True, min_states=2)
     learner = rng.choice(["ql", "sarsa", "esarsa", "dq"])
     r = rng.random()
     n, nA = m["n"], m["nA"]
@@ -104,6 +106,8 @@ def gen_case(rng, tier):
         iq = {"kind": "table", "table": tbl}
     temp = rng.choice(TEMPS) if rng.random() < .5 else "0"
     alpha, eps = rng.choice(ALPHAS), rng.choice(EPSS)
+    if learner == "esarsa" and rng.random() < .3:   # both branches of epsilon_softmax_dist at a temperature
+        temp, eps = rng.choice(["1/2", "2"]), rng.choice(["0", "0", "1/20"])
     episodes = rng.choice([1, 1, 2, 3, 5, 8, 12, 20])
     family = "plain"
     if rng.random() < .2:
@@ -217,8 +221,11 @@ def skew_row(rng, m, tiny):
             if ds:
                 dist[s] = min(ds) + 1
                 changed = True
+    # only rows that can end the episode directly: the big mass goes to an absorbing successor, so the skew can
+    # never starve the only progressing transition of a greedy learner (that produced 10^6-step episodes)
     cands = [k for k, row in m["trans"].items()
-             if not m["absorbing"][int(k.split(",")[0])] and sum(1 for ns, p in row if F(p) > 0) >= 2]
+             if not m["absorbing"][int(k.split(",")[0])] and sum(1 for ns, p in row if F(p) > 0) >= 2
+             and any(F(p) > 0 and m["absorbing"][ns] for ns, p in row)]
     if not cands:
         return
     k = rng.choice(cands)
@@ -524,6 +531,9 @@ def run(ctx):
         mk = model_kind(case)
         gen = mk == "esarsag"
         nsteps = sum(len(e["steps"]) for e in res["episodes"])
+        if nsteps > 20 * MAX_STEPS:
+            stats["skipped_too_long_for_exact_arithmetic"] = stats.get("skipped_too_long_for_exact_arithmetic", 0) + 1
+            continue
         if nsteps > (MAX_STEPS_EDGE if case.get("family") == "edge" else MAX_STEPS_GEN if gen else MAX_STEPS):
             stats["long_runs_oracle_only"] += 1
             clause, where = search_failing(case, res, impl_rows, impl_pol)
